@@ -1,16 +1,9 @@
 /-
   C08 — Query, verifier and operation agree; a refused operation changes nothing.
 -/
-import PK.Model.Machine
+import PK.Spec.Phases
 namespace PK
 open State M
-
-/-- the public operations (frames a user can push) -/
-def Ctl.isOp : Ctl → Bool
-  | .opPostAnte _ | .opCollect | .opPostBlind _ | .opBurn _ | .opDealHole _ _ | .opDealBoard _
-  | .opDraw _ | .opFold | .opCall | .opBringIn | .opCbr _ | .opRunout _ _ | .opShow _ _
-  | .opKill _ | .opPush | .opPull _ | .opNoOp => true
-  | _ => false
 
 /-- **refused ⇒ unchanged** (one step): when the verifier of a public operation refuses,
     the operation raises exactly that error and the state is untouched. -/
